@@ -50,7 +50,11 @@ JPOOLS = [["a", "b"], ["a", "ab", "abc", "b"], ["a", "ab"]]
 KIND_POOLS = {
     "k": [("int", p) for p in KPOOLS] + [("float", [1.0, 2.0, 2.5, -0.0, 1e16]), ("float", [2.0, 20.0]), ("bool", [True, False]),
                                          ("ts", ["2020-01-01T00:00:00", "2020-01-02T03:04:05", "2020-01-01T00:00:01"]),
-                                         ("bigint", [2 ** 53 + 1, 2 ** 53 + 3, 7])],
+                                         ("bigint", [2 ** 53 + 1, 2 ** 53 + 3, 7]),
+                                         # neighbours around 2**53 (float64 cannot tell them apart), the int64 extremes, uint64 beyond int64
+                                         ("bigint", [2 ** 53, 2 ** 53 + 1, 2 ** 53 + 2, 2 ** 53 - 1]),
+                                         ("bigint", [2 ** 63 - 1, 2 ** 63 - 2, -2 ** 63, -2 ** 63 + 1, 0]),
+                                         ("uint64", [2 ** 64 - 1, 2 ** 64 - 2, 2 ** 63, 2 ** 53 + 1, 1])],
     "j": [("str", p) for p in JPOOLS] + [("str", ["a b", "\u00e9", "x"]), ("float", [1.0, 10.0, 2.5]),
                                          ("ts", ["2021-03-04T00:00:00", "2021-03-04T05:06:07"])],
 }
@@ -66,7 +70,7 @@ def dir_text(kind, v):
     from fastparquet.util import path_string
     if kind == "ts":
         return path_string(pd.Timestamp(v))
-    cast = {"float": np.float64, "bool": np.bool_, "int": np.int64, "bigint": np.int64}.get(kind)
+    cast = {"float": np.float64, "bool": np.bool_, "int": np.int64, "bigint": np.int64, "uint64": np.uint64}.get(kind)
     return path_string(cast(v) if cast else v)
 
 
@@ -135,7 +139,7 @@ def gen_history(rng, hid, maxlen=6):
         if one_handle:
             # every operation after the first write goes through ONE long-lived ParquetFile (write_row_groups / remove_row_groups are
             # its methods; write(append=...) would open another handle): Dataset/DsHandle.v, theorem C09_handle_refines
-            kinds = ["remove"] * 2 + ["writergs"] * 3
+            kinds = ["remove"] * 2 + ["writergs"] * 3 + ["failed_writergs"] * 2
         kind = rng.choice(kinds)
         if kind == "remove":
             ops.append({"op": "remove", "sel_spec": [rng.randrange(0, 12) for _ in range(rng.choice([0, 1, 1, 2, 3]))],
@@ -149,6 +153,11 @@ def gen_history(rng, hid, maxlen=6):
         if kind == "writergs":
             o["sort_key"] = rng.choice(SORT_KEYS)
             o["sort_pnames"] = rng.random() < 0.5
+        if kind == "failed_writergs":
+            # write_row_groups through the handle whose data source raises after `after` row groups (DsHandle.v fail_op): the
+            # operation reports the failure; summary, content and the HANDLE must be as before (unreferenced part files may stay)
+            o["after"] = rng.randrange(0, len(o["offsets"]) + 1)
+            o["sort_key"], o["sort_pnames"] = "none", False
         ops.append(o)
     h = {"id": hid, "pcols": pcols, "ptypes": {"k": kkind, "j": jkind}, "ops": ops}
     if one_handle:
@@ -276,6 +285,9 @@ def model_ops(h, resolved):
         if o["op"] == "remove":
             out.append(["remove", list(sel if sel is not None else []), 1 if o["sort_pnames"] else 0])
             continue
+        if o["op"] == "failed_writergs":
+            out.append(["remove", [], 0])          # C09_failed_op_state_unchanged: summary and content as before
+            continue
         rgs = sx_rgs(cut(o["frame"], o["offsets"], h["pcols"], h.get("ptypes")))
         if h["pcols"] and o["op"] == "append" and not any(g for g in rgs):
             # every row of the frame has a missing partition key and is dropped: the append adds nothing - in the model: the
@@ -303,6 +315,8 @@ def to_df(frame, pcols, ptypes=None, y_int=False):
         kind = pt[c]
         if kind in ("int", "bigint"):
             d[c] = np.array(vals, dtype="int64")
+        elif kind == "uint64":
+            d[c] = np.array(vals, dtype="uint64")
         elif kind == "float":
             d[c] = np.array([np.nan if v is None else v for v in vals], dtype="float64")
         elif kind == "bool":
@@ -328,7 +342,20 @@ def plain_open(path, mode="rb"):
     return open(path, mode)
 
 
-def observe(root):
+EXACT_KEY_KINDS = ("int", "bigint", "uint64", "str", "bool")     # key kinds whose value is compared cell by cell after the read
+
+
+def norm_key(kind, v):
+    if v is None or v != v:
+        return None
+    if kind in ("int", "bigint", "uint64"):
+        return int(v)
+    if kind == "bool":
+        return bool(v)
+    return str(v)
+
+
+def observe(root, key_cols=()):
     """what the property looks at, from a FRESH open."""
     from fastparquet import ParquetFile
     obs = {}
@@ -365,6 +392,11 @@ def observe(root):
             summ.append([p, int(rg.num_rows), ids])
         obs["summary"] = summ
         try:
+            if key_cols and pf.row_groups:
+                # the partition VALUES every row is read back with (the plain model predicts content per key)
+                kdf = pf.to_pandas(columns=["x"] + [c for c, _ in key_cols])
+                obs["keys"] = {c: [norm_key(k, v) for v in kdf[c].astype(object).tolist()] for c, k in key_cols}
+                obs["key_ids"] = [int(v) for v in kdf["x"].tolist()]
             obs["read"] = [int(v) for v in pf.to_pandas(columns=["x"])["x"].tolist()] if pf.row_groups else []
         except BaseException as e:               # noqa
             obs["read"] = None
@@ -395,22 +427,42 @@ def run_history(arg):
                     write(root, to_df(o["frame"], pcols, h.get("ptypes"), o.get("y_int", False)), file_scheme="hive", partition_on=list(pcols), row_group_offsets=list(o["offsets"]),
                           append="overwrite", **okw)
                 elif o["op"] == "remove":
-                    if h.get("one_handle"):
-                        handle = handle or ParquetFile(root, **okw)
+                    if h.get("one_handle") and handle is None:
+                        handle = ParquetFile(root, **okw)
+                        if handle.row_groups:
+                            handle.to_pandas(columns=["x"])        # the handle has READ the dataset before it edits it
                     pf = handle or ParquetFile(root, **okw)
                     n = len(pf.row_groups)
                     sel = list(range(n)) if o.get("all") else (sorted(set(i % n for i in o["sel_spec"])) if n else [])
                     pf.remove_row_groups([pf.row_groups[i] for i in sel], sort_pnames=o["sort_pnames"], **okw)
+                elif o["op"] == "failed_writergs":
+                    if handle is None:
+                        handle = ParquetFile(root, **okw)
+                        if handle.row_groups:
+                            handle.to_pandas(columns=["x"])
+                    dff = to_df(o["frame"], pcols, h.get("ptypes"))
+                    offs = list(o["offsets"]) + [len(dff)]
+
+                    def source():
+                        for j in range(len(offs) - 1):
+                            if j >= o["after"]:
+                                break
+                            yield dff.iloc[offs[j]:offs[j + 1]]
+                        raise OSError("the data source of this write_row_groups failed after %d row groups" % o["after"])
+                    handle.write_row_groups(source(), **okw)
                 elif o["op"] == "writergs":
-                    if h.get("one_handle"):
-                        handle = handle or ParquetFile(root, **okw)
+                    if h.get("one_handle") and handle is None:
+                        handle = ParquetFile(root, **okw)
+                        if handle.row_groups:
+                            handle.to_pandas(columns=["x"])
                     pf = handle or ParquetFile(root, **okw)
                     pf.write_row_groups(to_df(o["frame"], pcols, h.get("ptypes"), o.get("y_int", False)), list(o["offsets"]), sort_key=sort_key_fn(o["sort_key"]),
                                         sort_pnames=o["sort_pnames"], **okw)
             except BaseException as e:           # noqa
                 raised = "%s: %s" % (type(e).__name__, str(e)[:160].replace("\n", " "))
             out["resolved"].append(sel)
-            obs = observe(root)
+            pt_ = h.get("ptypes") or DEFAULT_PTYPES
+            obs = observe(root, [(c, pt_[c]) for c in pcols if pt_[c] in EXACT_KEY_KINDS])
             obs["raised"] = raised
             if handle is not None:
                 try:
@@ -431,7 +483,7 @@ def dir_of(p):
     return p.rsplit("/", 1)[0] if "/" in p else ""
 
 
-def oracle(obs, spec):
+def oracle(obs, spec, orphans_ok=False):
     """the property's text on the real state after one step; spec = [(dir, ids)] predicted by the plain model (or None)."""
     problems = []
     if "open_error" in obs:
@@ -455,7 +507,7 @@ def oracle(obs, spec):
     if len(set(refd)) != len(refd):
         problems.append(("file-referenced-twice", "%s" % sorted(p for p in set(refd) if refd.count(p) > 1)))
     unref = sorted(set(obs["files"]) - set(refd))
-    if unref:
+    if unref and not orphans_ok:       # (a FAILED operation earlier in the history may leave unreferenced part files behind)
         problems.append(("unreferenced-part-file", "%s" % unref[:4]))
     if obs["other"]:
         problems.append(("stray-file", "%s" % obs["other"][:4]))
@@ -466,6 +518,31 @@ def oracle(obs, spec):
         if f.get("schema") is not None and f["schema"] != obs["schema"]:
             problems.append(("schema-mismatch", "%s: %s vs summary %s" % (p, f["schema"], obs["schema"])))
             break
+    return problems
+
+
+def oracle_more(h, si, obs):
+    """the reused handle against a fresh open; the partition values every row is read back with"""
+    problems = []
+    if "handle" in obs and "open_error" not in obs:
+        # the long-lived handle that made the operation(s) must read what a fresh open reads (content, row groups, num_rows)
+        hv = obs["handle"]
+        fresh = [[p_ for p_, _, _ in obs["summary"]], obs["num_rows"], obs["read"]]
+        if isinstance(hv, str):
+            problems.append(("handle-read-fails", "reading through the handle that made the operations fails: %s" % hv))
+        elif obs["read"] is not None and hv != fresh:
+            what = "row-group paths" if hv[0] != fresh[0] else ("num_rows" if hv[1] != fresh[1] else "rows read")
+            problems.append(("handle-differs-from-fresh-open", "%s: the handle that made the operations has %s, a fresh open %s" % (
+                what, str(hv[{"row-group paths": 0, "num_rows": 1, "rows read": 2}[what]])[:120], str(fresh[{"row-group paths": 0, "num_rows": 1, "rows read": 2}[what]])[:120])))
+    if obs.get("keys"):
+        pt_ = h.get("ptypes") or DEFAULT_PTYPES
+        written = {r["x"]: r for oo in h["ops"][:si + 1] for r in oo.get("frame", [])}
+        for c, got in obs["keys"].items():
+            bad = [(i, g, norm_key(pt_[c], written[i][c])) for i, g in zip(obs["key_ids"], got) if i in written and g != norm_key(pt_[c], written[i][c])]
+            if bad:
+                problems.append(("partition-value-differs", "row x=%d was written with %s=%r and is read back with %r (%d such rows)" % (
+                    bad[0][0], c, bad[0][2], bad[0][1], len(bad))))
+                break
     return problems
 
 
@@ -583,8 +660,14 @@ def run(ctx):
             ctx.count("row_groups_after", min(len(msum), 12))
             spec = files_sx(mspec[0]) if mspec else None
             # oracle first (the real state against the property's text and the plain model)
-            problems = oracle(obs, spec)
+            orphans_ok = any(oo["op"] == "failed_writergs" for oo in h["ops"][:si + 1])
+            problems = oracle(obs, spec, orphans_ok)
+            problems += oracle_more(h, si, obs)
             refused = bool(obs["raised"])
+            if o["op"] == "failed_writergs":
+                if not refused:
+                    problems.insert(0, ("failing-operation-returned-normally", "write_row_groups whose data source raises returned normally"))
+                refused = False          # the model's step for it is the edit that changes nothing
             if refused and spec is not None and o["op"] != "write":
                 problems.insert(0, ("operation-refused", "%s raised %s" % (o["op"], obs["raised"])))
             emptied = si > 0 and not res["steps"][si - 1].get("summary")
@@ -610,12 +693,12 @@ def run(ctx):
                 ctx.correspondence("summary row-group list (path, rows read through the summary): model = real", short, files_sx(msum), obs["open_error"])
                 break
             rsum = [[p, ids] for p, _, ids in obs["summary"]]
-            rdir = sorted([p, f["ids"]] for p, f in obs["files"].items())
+            rdir = sorted([p, f["ids"]] for p, f in obs["files"].items() if not orphans_ok or p in [q for q, _, _ in obs["summary"]])
             mfiles = files_sx(mdir)                     # model content of a file = schema id :: row ids
             ctx.correspondence("schema ids (summary, every data file): model = real", short,
                                [msch, sorted([p, c[0] if c else None] for p, c in mfiles)],
                                [sid(obs.get("schema")),
-                                sorted([p, sid(f.get("schema"))] for p, f in obs["files"].items())])
+                                sorted([p, sid(f.get("schema"))] for p, f in obs["files"].items() if not orphans_ok or p in [q for q, _, _ in obs["summary"]])])
             mdir = [[p.encode(), c[1:]] for p, c in mfiles]
             ok &= ctx.correspondence("summary row-group list (path, rows read through the summary): model = real", short, files_sx(msum), rsum)
             ok &= ctx.correspondence("directory listing (path -> rows held): model = real", short, sorted(files_sx(mdir)), rdir)
@@ -669,8 +752,10 @@ def replay(rep):
             print("   files:   %s" % {k: v.get("ids") for k, v in obs["files"].items()})
             print("   read:    %s" % obs.get("read"))
             print("   plain model predicts: %s" % spec)
-            problems = oracle(obs, spec)
-            if obs["raised"] and spec is not None and o["op"] != "write":
+            problems = oracle(obs, spec, any(oo["op"] == "failed_writergs" for oo in h["ops"][:si + 1])) + oracle_more(h, si, obs)
+            if o["op"] == "failed_writergs" and not obs["raised"]:
+                problems.insert(0, ("failing-operation-returned-normally", "write_row_groups whose data source raises returned normally"))
+            if obs["raised"] and spec is not None and o["op"] not in ("write", "failed_writergs"):
                 problems.insert(0, ("operation-refused", obs["raised"]))
             for sym, text in problems:
                 print("   PROPERTY FAILS: %s: %s" % (sym, text))
